@@ -384,8 +384,10 @@ def make_jobs(tier, seed, build):
                     continue
                 jobs.append({"id": "%s:%s" % (gname, ",".join(shape)), "grammar": gname, "shape": shape, "fs": "none"})
     for n in range(1, (4 if tier == "quick" else 5) + 1):
-        for mask in range(1 << n):
-            jobs.append({"id": "lemma:%d:%s" % (n, format(mask, "0%db" % n)), "kind": "lemma", "n": n, "present": mask, "shape": (), "weight": n})
+        for mask in range(3 ** n):
+            if n == 5 and any((mask // 3 ** i) % 3 == 2 for i in range(n)) and sum(1 for i in range(n) if (mask // 3 ** i) % 3 == 2) > 2:
+                continue  # five items: at most two conflict marks
+            jobs.append({"id": "lemma:%d:%s" % (n, "".join(str((mask // 3 ** i) % 3) for i in range(n))), "kind": "lemma", "n": n, "present": mask, "shape": (), "weight": n})
     return jobs
 
 
@@ -408,8 +410,18 @@ def run_lemma_job(job, build):
     def harness(ex):
         words = [tok.Word("word", val=ex.fresh("w", "int")) for _ in range(n)]
         items = tok.words_to_items(ex, words)
-        present = [bool(mask >> i & 1) for i in range(n)]
-        ist = Seq(tuple(Adt("ItemState", L.variant_index("ItemState", "Unparsed" if p else "Parsed"), ()) for p in present))
+        # base-3 digits of the mask: 0 = consumed, 1 = unparsed, 2 = unparsed and carrying a Conflict mark (the
+        # losing branch of a choice would have taken it) - still present
+        digits = [(mask // 3 ** i) % 3 for i in range(n)]
+        present = [d != 0 for d in digits]
+
+        def ist_of(d):
+            if d == 0:
+                return Adt("ItemState", L.variant_index("ItemState", "Parsed"), ())
+            if d == 1:
+                return Adt("ItemState", L.variant_index("ItemState", "Unparsed"), ())
+            return Adt("ItemState", L.variant_index("ItemState", "Conflict"), (0,))
+        ist = Seq(tuple(ist_of(d) for d in digits))
         lo = tok.choose_free(ex, n + 1, "lo")
         hi = lo + tok.choose_free(ex, n + 1 - lo, "hi")
         rem = sum(1 for i in range(n) if present[i] and lo <= i < hi)
@@ -431,7 +443,8 @@ def run_lemma_job(job, build):
         res, pre, post, (lo, hi), inner = r.value
         postp = lemmas.present_vec(ex, post)
         f = lemmas.fields_of(ex, post)
-        desc = "n=%d present=%s scope=%d..%d inner claims %s, rule %s" % (n, "".join("1" if p else "0" for p in pre), lo, hi, list(inner.fields[0]), inner.fields[1])
+        desc = "n=%d states=%s (0 consumed, 1 unparsed, 2 conflict-marked) scope=%d..%d inner claims %s, rule %s" % (
+            n, "".join(str((mask // 3 ** i) % 3) for i in range(n)), lo, hi, list(inner.fields[0]), inner.fields[1])
         cls = "ok" if res.var == 0 else "err"
         out["classes"][cls] = out["classes"].get(cls, 0) + 1
         bad = None
@@ -445,6 +458,14 @@ def run_lemma_job(job, build):
             bad = "Ok after consuming the non-contiguous items %s" % taken
         if bad is None and any(not (lo <= i < hi) for i in taken):
             bad = "consumed items %s outside the scope" % taken
+        # completeness: a complete contiguous block of present items inside the scope is accepted as a whole
+        S = list(inner.fields[0])
+        if bad is None and S and inner.fields[1] == "all-of-S" and S == list(range(S[0], S[-1] + 1)) \
+                and all(pre[i] and lo <= i < hi for i in S):
+            if cls != "ok":
+                bad = "the complete contiguous block %s of unconsumed items is rejected" % S
+            elif taken != S:
+                bad = "the complete contiguous block %s is offered, items %s are consumed" % (S, taken)
         if bad:
             out["cex"].append({"kind": "lemma-adjacent", "n": n, "present": mask, "info": "%s: %s" % (desc, bad)})
         elif len(out["samples"]) < 1 and cls == "ok" and len(taken) >= 2:
@@ -485,7 +506,7 @@ def finish(results, jobs, build, out, tier, seed, wall):
             out.violation("%s:%d:%d" % (c["kind"], c["n"], c["present"]), "ParseAdjacent::eval %s" % c["info"], c)
     cov = ev["coverage"]
     cov["lemma"] = {"jobs": len(ljobs), "paths": st["paths"], "items": "1..=%d" % (4 if tier == "quick" else 5),
-                    "pre_states": "every subset of items already consumed x every scope", "inner_parser": "every claimed index set x rules " + ", ".join(__import__("props.lemmas", fromlist=["x"]).DET_RULES),
+                    "pre_states": "every assignment of {consumed, unparsed, conflict-marked} to the items x every scope", "inner_parser": "every claimed index set x rules " + ", ".join(__import__("props.lemmas", fromlist=["x"]).DET_RULES),
                     "outcomes": fw.merge_counts(lem, "classes")}
     cov["evaluations"] += st["queries"]
     cov["states"] += st["paths"]
